@@ -74,7 +74,10 @@ func (e *Engine) generate(keys []string) []*FuncResult {
 func (e *Engine) queryText(prelude string, q *Query, o *Obligation) string {
 	var sb strings.Builder
 	sb.WriteString(prelude)
-	for _, it := range q.items[:o.n] {
+	for i, it := range q.items[:o.n] {
+		if q.skip[i] {
+			continue // the fact of an obligation this check does not claim (see cmdCheck)
+		}
 		sb.WriteString(it)
 		sb.WriteByte('\n')
 	}
